@@ -224,34 +224,81 @@ def stack_ids(idx, sym, io):
 
 
 # ------------------------------------------------------------------ model predictions
-def model_predict(wd, cases):
-    """cases: list of (stack ids, harness class) -> list of [(level id, [tokens])]"""
-    res = {}
-    if not cases:
-        return res
-    uniq = sorted(set((tuple(s), c) for s, c in cases))
-    shard = 400
-    for b in range(0, len(uniq), shard):
-        part = uniq[b:b + shard]
-        name = 'Cases%d' % (b // shard)
+TOK_RE = r'I-?\d+|E|A|F|V|B\([^)]*\)'
+
+
+def tok_to_aval(t):
+    if t.startswith('I'):
+        return 'VInt (%s)' % t[1:]
+    return {'E': 'VErr', 'A': 'VAny', 'F': 'VFail'}[t]
+
+
+def coq_eval(wd, name, items):
+    """items: list of Coq expressions of type list pred -> list of token lists (one coqc run per 300)"""
+    res = []
+    for b in range(0, len(items), 300):
+        part = items[b:b + 300]
         v = ['From Coq Require Import ZArith String List.', 'From Pnc Require Import Gen_consts Fault Gen_iosites.',
-             'Import ListNotations.', 'Open Scope string_scope.', 'Set Printing Width 1000000.']
-        for i, (st, c) in enumerate(part):
-            v.append('Eval vm_compute in ("CASE %d " ++ show_levels (predict_all io_sites link_sites [%s] %s)).' % (
-                i, '; '.join('"%s"' % x for x in st), coq_class(c)))
-        p = os.path.join(wd, name + '.v')
+             'Import ListNotations.', 'Open Scope string_scope.', 'Set Printing Width 1000000.',
+             'Definition io_run (id : string) (c : errclass) : list pred :=',
+             '  match find_site id io_sites with Some s => pdedup (map pred_of (run VFail (mpi2nc c) (s_body s)))',
+             '  | None => [PBad "unknown I/O site"] end.',
+             'Definition link_run (id : string) (v : aval) : list pred :=',
+             '  match find_site id link_sites with Some s => pdedup (map pred_of (run v 0%Z (s_body s)))',
+             '  | None => [PBad "unknown link site"] end.']
+        for i, e in enumerate(part):
+            v.append('Eval vm_compute in ("CASE %d " ++ String.concat "," (map pred_tok (%s))).' % (i, e))
+        p = os.path.join(wd, '%s_%d.v' % (name, b // 300))
         open(p, 'w').write('\n'.join(v) + '\n')
         rc, out = C.sh(['coqc', '-Q', C.COQ, 'Pnc', '-w', '-all', p], timeout=1500, cwd=wd)
         if rc != 0:
             raise C.BuildFailure('model prediction file failed:\n' + out[-2000:])
-        for m in re.finditer(r'"CASE (\d+) ([^"]*)"', out.replace('\n', ' ')):
-            st, c = part[int(m.group(1))]
-            lv = []
-            for seg in m.group(2).split('|'):
-                k, _, toks = seg.rpartition('=')
-                lv.append((k, re.findall(r'I-?\d+|E|A|F|V|B\([^)]*\)', toks)))
-            res[(st, c)] = lv
+        got = {int(m.group(1)): re.findall(TOK_RE, m.group(2)) for m in re.finditer(r'"CASE (\d+) ([^"]*)"', out.replace('\n', ' '))}
+        if len(got) != len(part):
+            raise C.BuildFailure('model prediction output incomplete:\n' + out[-1000:])
+        res += [got[i] for i in range(len(part))]
     return res
+
+
+def model_predict(wd, cases, sample=8):
+    """cases: list of (stack ids, harness class) -> {(stack, class): [(level id, [tokens])]}.
+    Fault.predict_all composes the levels; here the composition (flat_map + dedup, as in
+    Fault.predict_levels) is done level by level over a table of the distinct
+    (I/O site, class) and (link site, incoming value) evaluations, each computed by Coq once;
+    a sample of complete stacks is cross-checked against Fault.predict_all itself."""
+    uniq = sorted(set((tuple(s), c) for s, c in cases))
+    if not uniq:
+        return {}, []
+    io_keys = sorted(set((st[0], c) for st, c in uniq))
+    io_tab = dict(zip(io_keys, coq_eval(wd, 'Io', ['io_run "%s" %s' % (i, coq_class(c)) for i, c in io_keys])))
+    link_tab = {}
+    cur = {k: list(io_tab[(k[0][0], k[1])]) for k in uniq}
+    levels = {k: [(k[0][0], cur[k])] for k in uniq}
+    depth = max(len(st) for st, _ in uniq)
+    for d in range(1, depth):
+        need = sorted(set((st[d], t) for (st, c) in uniq if len(st) > d for t in cur[(st, c)]
+                          if t[0] in 'IEAF' and (st[d], t) not in link_tab))
+        if need:
+            link_tab.update(zip(need, coq_eval(wd, 'L%d' % d, ['link_run "%s" (%s)' % (i, tok_to_aval(t)) for i, t in need])))
+        for k in uniq:
+            st, c = k
+            if len(st) <= d:
+                continue
+            nxt = []
+            for t in cur[k]:
+                for o in (link_tab[(st[d], t)] if t[0] in 'IEAF' else [t]):
+                    if o not in nxt:
+                        nxt.append(o)
+            cur[k] = nxt
+            levels[k].append((st[d], nxt))
+    # cross-check of the composition against Fault.predict_all on a sample
+    step = max(1, len(uniq) // sample)
+    samp = uniq[::step][:sample]
+    whole = coq_eval(wd, 'Whole', ['snd (last (predict_all io_sites link_sites [%s] %s) ("", []))' % (
+        '; '.join('"%s"' % x for x in st), coq_class(c)) for st, c in samp])
+    bad = ['%s %s: predict_all %s, composed %s' % (st, c, sorted(w), sorted(levels[(st, c)][-1][1]))
+           for (st, c), w in zip(samp, whole) if sorted(w) != sorted(levels[(st, c)][-1][1])]
+    return levels, bad
 
 
 def tok_allows(tok, val):
@@ -311,7 +358,9 @@ def run(ctx):
 
     # ---------------- census
     with ThreadPoolExecutor(max_workers=jobs) as ex:
-        census = list(ex.map(lambda cfg: run_harness(exe, wd, cfg), CONFIGS))
+        census = list(ex.map(lambda cfg: run_harness(exe, wd, cfg, timeout=300), CONFIGS))
+    # watchdog of the faulted runs: relative to what the unfaulted program needs on this machine now
+    base_wall = {i: r.wall for i, r in enumerate(census)}
     problems = ['translator: ' + x for x in tj.get('problems', [])]
     for r in census:
         if r.rc != 0 or not all(l['done'] for l in r.logs) or any(v[1] != 0 for l in r.logs for v in l['api'].values()):
@@ -365,7 +414,14 @@ def run(ctx):
 
     def inject(it):
         p, f = it
-        return run_harness(exe, wd, CONFIGS[p['ci']], f, timeout=30)
+        to = max(10.0, 8 * base_wall[p['ci']])
+        r = run_harness(exe, wd, CONFIGS[p['ci']], f, timeout=to)
+        if r.rc == -9:
+            # a hang is an observation only if it is still one with three times the patience
+            r2 = run_harness(exe, wd, CONFIGS[p['ci']], f, timeout=3 * to)
+            r2.confirmed_hang = (r2.rc == -9)
+            return r2
+        return r
     with ThreadPoolExecutor(max_workers=jobs) as ex:
         results = list(ex.map(inject, plan))
 
@@ -376,7 +432,9 @@ def run(ctx):
     proof_ok = ctx.add_proof(pr, CHECKER_CMD)
 
     # ---------------- model predictions for the observed stacks
-    preds = model_predict(wd, [(p['stack'], f['cls']) for p, f in plan]) if pr['ok'] else {}
+    preds, comp_bad = model_predict(wd, [(p['stack'], f['cls']) for p, f in plan]) if pr['ok'] else ({}, [])
+    for cb in comp_bad[:2]:
+        problems.append('composition of the level predictions differs from Fault.predict_all: ' + cb)
 
     # ---------------- evaluate
     stats = dict(census_runs=len(census), positions=len(positions), injections=len(plan), oracle_pass=0, dropped=0,
